@@ -19,7 +19,8 @@ REQUIRED = ["Sqfs.C04.readNumber_exact_or_error", "Sqfs.C04.number_roundtrip", "
             "Sqfs.C04.checksum_roundtrip", "Sqfs.C04.prefix_digit_len_correct", "Sqfs.C04.schily_record_length",
             "Sqfs.C04.sparse_expand_spec", "Sqfs.C04.specExpand_length", "Sqfs.C04.mtime_clamp", "Sqfs.C04.mtime_overwrite_path_safe",
             "Sqfs.C04.prefix_strip", "Sqfs.C04.root_handling", "Sqfs.C04.implicit_parents",
-            "Sqfs.C04.sparse_expand_spec_any_request_size", "Sqfs.C04.header_roundtrip_partial", "Sqfs.C04.fixpoint_entry_level_partial"]
+            "Sqfs.C04.sparse_expand_spec_any_request_size", "Sqfs.C04.header_roundtrip_partial", "Sqfs.C04.fixpoint_entry_level_partial",
+            "Sqfs.C04.pax_record_roundtrip", "Sqfs.C04.pax_payload_roundtrip"]
 EXCLUDE = ("lib/tar/src/write_header.c", "lib/tar/src/read_header.c")     # #included by the harness (static helpers)
 U64 = 1 << 64
 
